@@ -42,7 +42,7 @@ def shards(tier, seed):
 def floors(tier):
     return {"inverse:calls": 7000 if tier == "quick" else 200000, "clifford_from_stabilizer:calls": 2000,
             "graph_tableau:calls": 300, "inverse:with_Y_entries": 1000, "inverse:with_negative_sign": 1000,
-            "inverse:circuit_has_P": 500, "reverse_run:calls": 2000, "dense_crosscheck": 200}
+            "inverse:circuit_has_P": 500, "reverse_run:calls": 2000, "dense_crosscheck": 200, "inverse:low_sign_presentations": 300}
 
 
 def run_shard(spec, ctx):
@@ -67,6 +67,9 @@ def run_shard(spec, ctx):
         for i in range(spec["count"]):
             n = int(rng.integers(4, spec["nmax"] + 1))
             t = stab.y_heavy_state(rng, n) if i % 2 else pauli.random_stabilizer_group(rng, n)
+            if i % 4 == 3:
+                t = stab.low_sign_presentation(rng, t)
+                ctx.count("inverse:low_sign_presentations")
             check_state(t, ctx, full=True)
     elif k == "graphs_all":
         for n in range(1, spec["nmax"] + 1):
